@@ -477,6 +477,52 @@ func (g *SCG) roleOf(fn *FuncNode, lit *ast.FuncLit, stack []ast.Node) litRole {
 	case *ast.GoStmt, *ast.DeferStmt:
 		return litRole{kind: "escape", via: "go/defer operand"}
 	case *ast.AssignStmt, *ast.ValueSpec:
+		// a literal bound to a local that is then handed, once, to a call (`cb := func(…){…}; helper(…, cb)`) plays the
+		// role it would have played written in place
+		var v types.Object
+		switch st := par.(type) {
+		case *ast.AssignStmt:
+			for k, rhs := range st.Rhs {
+				if unparen(rhs) == ast.Expr(lit) && len(st.Lhs) == len(st.Rhs) {
+					v = fn.objOf(st.Lhs[k])
+				}
+			}
+		case *ast.ValueSpec:
+			for k, rhs := range st.Values {
+				if unparen(rhs) == ast.Expr(lit) && k < len(st.Names) {
+					v = fn.Pkg.TypesInfo.ObjectOf(st.Names[k])
+				}
+			}
+		}
+		if v != nil {
+			var argCall *ast.CallExpr
+			var argExpr ast.Expr
+			uses, writes := 0, 0
+			ast.Inspect(fn.Body, func(n ast.Node) bool {
+				switch x := n.(type) {
+				case *ast.AssignStmt:
+					for _, l := range x.Lhs {
+						if id, ok := l.(*ast.Ident); ok && fn.Pkg.TypesInfo.ObjectOf(id) == v {
+							writes++
+						}
+					}
+				case *ast.CallExpr:
+					for _, a := range x.Args {
+						if id, ok := unparen(a).(*ast.Ident); ok && fn.Pkg.TypesInfo.Uses[id] == v {
+							argCall, argExpr = x, a
+						}
+					}
+				case *ast.Ident:
+					if fn.Pkg.TypesInfo.Uses[x] == v {
+						uses++
+					}
+				}
+				return true
+			})
+			if uses == 1 && writes <= 1 && argCall != nil {
+				return g.roleAsArg(fn, argCall, argExpr)
+			}
+		}
 		return litRole{kind: "bound", via: "local variable"}
 	case *ast.ReturnStmt:
 		// returned from an immediately-invoked literal whose call is an argument: take that role
